@@ -170,6 +170,14 @@ func runCaps(w *harness.W, cc capCase) {
 			break
 		}
 		w.Count("widths_checked", 1)
+		// the styled-string entry point measures with the same method
+		if !strings.ContainsAny(e.G, "\x1b") {
+			if got := vx.NewStyledString(e.G, vaxis.Style{}).Len(); got != want {
+				w.Violation(fmt.Sprintf("styledstring-width:method%d", method), fmt.Sprintf("NewStyledString(%q) (%s) has width %d, RenderedWidth and the width table say %d for method %d", e.G, e.Name, got, want, method), cc, fmt.Sprint(got), fmt.Sprint(want))
+				break
+			}
+			w.Count("styled_string_widths_checked", 1)
+		}
 	}
 	// frame with every style and width class
 	layout := method
